@@ -295,6 +295,26 @@ def step (s : State) : Op → State × Out
                 next := seed }, .ok)
     else (s, .err .notFresh)
 
+/-! ### what `Drawing.write` exports (handles only): BLOCKS, ENTITIES, $HANDSEED -/
+
+structure FileAbs where
+  blocks : List (Nat × List Nat)     -- per BLOCK_RECORD in table order: entities between BLOCK and ENDBLK
+  entities : List Nat                -- ENTITIES section: modelspace, then the active paperspace
+  handseed : Nat
+  deriving Repr, DecidableEq
+
+def liveContent (s : State) (k : Nat) : List Nat := ((spaceOf s k).getD []).filter (isAlive s)
+
+/-- `BlocksSection.export_dxf` + `EntitySection.export_dxf` + `$HANDSEED = str(entitydb.handles)` -/
+def writeFile (s : State) : FileAbs :=
+  let ms := blockBr s (lower modelSpaceName)
+  let ps := blockBr s (lower paperSpaceName)
+  { blocks := s.blocks.map (fun b =>
+      (b.2.2, if some b.2.2 = ms ∨ some b.2.2 = ps then [] else liveContent s b.2.2)),
+    entities := (match ms with | some k => liveContent s k | none => []) ++
+                (match ps with | some k => liveContent s k | none => []),
+    handseed := s.next }
+
 def run (s : State) (ops : List Op) : State := ops.foldl (fun st op => (step st op).1) s
 
 end EzdxfVerif.Doc
